@@ -13,8 +13,13 @@
 (*   InvF  ledger free = max(0, total - used)                              *)
 (*   InvU  no over-commit unless the environment did it     (Device.tla)   *)
 (*   InvAK every outcome of the transcribed allocator satisfied (A)/(K)    *)
-(* Mutation switches (all TRUE = the code as read) show that the model     *)
-(* checking is not vacuous: MC_bug_*.cfg must FAIL.                        *)
+(* Mutation switches (DupCheck .. CmpOK TRUE = the code as read) show that  *)
+(* the model checking is not vacuous: MC_bug_{dup,known,free,cmp,exempt}   *)
+(* .cfg must FAIL.  With GPU memory requests in BYTES in the menu          *)
+(* (ByteReqs) the transcription of the code as read violates InvU          *)
+(* (MC_bug_mem.cfg - the defect reproduced on the real code, see           *)
+(* proposed_fixes/C07); with DerivedCheck = TRUE (the repair) it holds     *)
+(* (MC_mem_fixed.cfg).  bin/check runs MC_quick / MC_thorough_{a,c,b}.     *)
 (***************************************************************************)
 EXTENDS Device, SequencesExt
 
